@@ -43,7 +43,7 @@ func loadProgram(repo string) (*Gen, error) {
 	prog, spkgs := ssautil.Packages(pkgs, ssa.GlobalDebug|ssa.InstantiateGenerics)
 	prog.Build()
 	g := &Gen{prog: prog, pkgs: map[string]*ssa.Package{}, byName: map[string]*ssa.Package{}, impByName: map[string]*types.Package{},
-		fset: prog.Fset, funcByKey: map[string]*ssa.Function{}, maxInline: 6, inlineExt: map[string]bool{}}
+		fset: prog.Fset, funcByKey: map[string]*ssa.Function{}, keyAlias: map[*ssa.Function]string{}, maxInline: 6, inlineExt: map[string]bool{}}
 	// module path = common prefix: take the shortest package path
 	for _, p := range spkgs {
 		if p == nil {
@@ -61,7 +61,7 @@ func loadProgram(repo string) (*Gen, error) {
 		g.byName[pkgName(p.Pkg)] = p
 	}
 	for _, p := range prog.AllPackages() {
-		if _, ok := g.impByName[p.Pkg.Name()]; !ok || g.isRepoPkg(p.Pkg) {
+		if old, ok := g.impByName[p.Pkg.Name()]; !ok || g.isRepoPkg(p.Pkg) || (!g.isRepoPkg(old) && len(p.Pkg.Path()) < len(old.Path())) {
 			g.impByName[p.Pkg.Name()] = p.Pkg
 		}
 	}
